@@ -1,4 +1,292 @@
-import GcmpyModel.Model.ClosedForms
+import GcmpyModel.Lemmas.ClosedForms
+/-
+Property C16: the closed-form equations and the graph counts behind them
+(`gcmpy/message_passing/number_connected_graphs.py`, `equations/clique_equation.py`,
+`equations/chordless_cycle_equation.py`; model: `Model/ClosedForms.lean`).
+
+Proved here
+* `omega_closed`            the interface-edge count is `(κ+1)(τ-κ-1)`;
+* `Q_eq_Qgen`               the Cayley shortcut agrees with the shortcut-free recursion for all `n ≤ 12`, all `k`;
+* `Q_trees`, `Q_zero_outside`, `Q_zero_below` (all `n`), `Q_complete`, `Qgen_trees` (`n ≤ 12`);
+* `nocg_spec`, `QQ_spec`    the brute-force counters count what they say (`QQ n k = connCount n k`, all `n`);
+* `Q_eq_connCount_small`    `Q n k` is the number of connected labelled graphs for `n ≤ 5` and ALL `k`;
+* `cycle_closed_form`, `clique_expanded`, `esym_spec`   the algebraic shape of the two closed-form equations.
+
+Stated but NOT proved (kept visible as `Prop`s): `Q_eq_connCount_full`, `Qgen_eq_connCount_full`, `Q_eq_Qgen_full`,
+`clique_exact_full`, `cycle_exact_full`.
+-/
 namespace Gcmpy.ClosedForms
-theorem placeholder_c16 : True := trivial
+open Gcmpy Gcmpy.Graph Gcmpy.Automated
+
+/-! ## 1. `omega` -/
+
+/-- `omega(τ, κ)`: a component of `κ+1` vertices of a `τ`-clique has `(κ+1)(τ-κ-1)` interface edges -/
+theorem omega_closed (tau kappa : Nat) (h : kappa < tau) :
+    omega tau kappa = (kappa + 1) * (tau - kappa - 1) := by
+  unfold omega
+  obtain ⟨r, rfl⟩ : ∃ r, tau = kappa + 1 + r := ⟨tau - kappa - 1, by omega⟩
+  have hr : kappa + 1 + r - kappa - 1 = r := by omega
+  simp only [hr]
+  have h1 := two_mul_sum_sub (kappa + 1 + r) r (by omega)
+  have h2 := two_mul_pred_half r
+  generalize ((List.range r).map fun v => kappa + 1 + r - (v + 1)).sum = S at h1 ⊢
+  generalize r * (r - 1) / 2 = T at h2 ⊢
+  cases r with
+  | zero => simp at h1 ⊢; omega
+  | succ r =>
+    simp only [Nat.add_sub_cancel] at h2
+    have : S = T + (kappa + 1) * (r + 1) := by nlinarith [h1, h2]
+    omega
+
+
+/-! ## 2. the Harary–Palmer table `Q` -/
+
+/-- kernel evaluation of both memo tables up to 12 vertices (298 entries each; ~22 s) -/
+theorem Q_eq_Qgen_table : qTable 12 = qTableGen 12 := by decide +kernel
+
+/-- **the Cayley shortcut `n^(n-2)` agrees with the shortcut-free recursion**, all `n ≤ 12` and all `k` -/
+theorem Q_eq_Qgen (n k : Nat) (h : 1 ≤ n) (h' : n ≤ 12) : Q n k = Qgen n k := by
+  unfold Q Qgen
+  rw [if_neg (by omega), ← qTable_getD_of_le (n := n) (m := 12) (by omega) h',
+    ← qTableGen_getD_of_le (n := n) (m := 12) (by omega) h', Q_eq_Qgen_table]
+
+/-- `Q n k = 0` above the number of edges of `K_n` (all `n`, including `n = 0`) -/
+theorem Q_zero_outside (n k : Nat) (h : k > n * (n - 1) / 2) : Q n k = 0 := by
+  cases n with
+  | zero => unfold Q; simp at h ⊢; omega
+  | succ n => rw [Q_succ_eq_qEntry]; exact qEntry_eq_zero_of_gt h
+
+/-- `Q n k = 0` below the size of a spanning tree -/
+theorem Q_zero_below (n k : Nat) (h : k + 1 < n) : Q n k = 0 := by
+  obtain ⟨m, rfl⟩ : ∃ m, n = m + 1 := ⟨n - 1, by omega⟩
+  rw [Q_succ_eq_qEntry]
+  unfold qEntry
+  have : k < m + 1 - 1 := by omega
+  simp only [this, true_or, if_true]
+
+/-- `Q n (n-1) = n^(n-2)` (Cayley), for every `n ≥ 1`: this is the model's shortcut branch -/
+theorem Q_trees (n : Nat) (h : 1 ≤ n) : Q n (n - 1) = ((n ^ (n - 2) : Nat) : Int) := by
+  obtain ⟨m, rfl⟩ : ∃ m, n = m + 1 := ⟨n - 1, by omega⟩
+  rw [Q_succ_eq_qEntry, Nat.add_sub_cancel]
+  unfold qEntry
+  have hm : m ≤ (m + 1) * m / 2 := by
+    rw [Nat.le_div_iff_mul_le (by norm_num)]
+    rcases Nat.eq_zero_or_pos m with rfl | hp
+    · simp
+    · have := Nat.mul_le_mul_right m (show 2 ≤ m + 1 by omega); omega
+  have h1 : ¬ (m < m ∨ m > (m + 1) * m / 2) := by omega
+  simp only [Nat.add_sub_cancel, h1, if_false, if_true]
+
+/-- the shortcut-free recursion reproduces Cayley's formula up to 12 vertices -/
+theorem Qgen_trees (n : Nat) (h : 1 ≤ n) (h' : n ≤ 12) : Qgen n (n - 1) = ((n ^ (n - 2) : Nat) : Int) := by
+  rw [← Q_eq_Qgen n _ h h', Q_trees n h]
+
+theorem Q_complete_table : ∀ n, n ≤ 12 → 1 ≤ n → Q n (n * (n - 1) / 2) = 1 := by decide +kernel
+
+/-- exactly one connected graph uses all edges -/
+theorem Q_complete (n : Nat) (h : 1 ≤ n) (h' : n ≤ 12) : Q n (n * (n - 1) / 2) = 1 := Q_complete_table n h' h
+
+/-! ## 3. counting specifications -/
+
+/-- number of connected labelled graphs on `n` vertices with `k` edges, by definition: edge subsets of K_n -/
+def connCount (n k : Nat) : Nat :=
+  ((sublists (completeGraph n).edges).filter fun A => A.length = k ∧ connected A (List.range n)).length
+
+/-- the same count, enumerating only the `k`-subsets (used for kernel evaluation) -/
+def connCount' (n k : Nat) : Nat :=
+  ((combinations k (completeGraph n).edges).filter fun A => connected A (List.range n)).length
+
+theorem connCount_eq (n k : Nat) : connCount n k = connCount' n k := by
+  unfold connCount connCount'
+  rw [length_filter_combinations]
+
+/-- **`number_of_connected_graphs(G, ak, i, k)`** is exactly the number of ways of deleting `k` edges from the
+subgraph induced on `ak ∪ {i}` such that it stays connected -/
+theorem nocg_spec (G : Motif) (ak : List Nat) (i k : Nat) :
+    let N' := G.nodes.filter fun n => n = i ∨ n ∈ ak
+    let E' := G.edges.filter fun e => e.1 ∈ N' ∧ e.2 ∈ N'
+    numberOfConnectedGraphs G ak i k
+      = ((sublists E').filter fun comb => comb.length = k ∧ connected (E'.filter (· ∉ comb)) N').length := by
+  intro N' E'
+  unfold numberOfConnectedGraphs
+  exact length_filter_combinations k E' _
+
+theorem QQ_spec (n k : Nat) (hk : k ≤ n * (n - 1) / 2) : QQ n k = connCount n k := by
+  unfold QQ
+  rw [nocg_spec]
+  have hN : ((completeGraph n).nodes.filter fun v => v = 0 ∨ v ∈ (List.range n).filter (0 < ·)) = List.range n := by
+    show ((List.range n).filter _) = _
+    rw [List.filter_eq_self]
+    intro v hv
+    have := List.mem_range.1 hv
+    simp only [List.mem_filter, List.mem_range, decide_eq_true_eq]
+    omega
+  simp only [hN]
+  have hE : ((completeGraph n).edges.filter fun e => e.1 ∈ List.range n ∧ e.2 ∈ List.range n)
+      = (completeGraph n).edges := by
+    rw [List.filter_eq_self]
+    rintro ⟨a, b⟩ he
+    have := mem_completeGraph_edges.1 he
+    simp only [List.mem_range, decide_eq_true_eq]; omega
+  simp only [hE]
+  have hnd := completeGraph_edges_nodup n
+  have hlen := completeGraph_edges_length n
+  unfold connCount
+  rw [← length_filter_compl hnd (fun A => decide (A.length = k ∧ connected A (List.range n) = true))]
+  congr 1
+  apply List.filter_congr
+  intro s hs
+  have := length_filter_not_mem hnd (mem_sublists_iff.1 hs)
+  rw [hlen] at this
+  have e : s.length = n * (n - 1) / 2 - k ↔
+      ((completeGraph n).edges.filter fun x => x ∉ s).length = k := by
+    generalize n * (n - 1) / 2 = m at *
+    omega
+  apply decide_eq_decide.2
+  rw [e]
+
+
+/-- no graph on `n` vertices has more than `n(n-1)/2` edges -/
+theorem connCount_zero_outside (n k : Nat) (h : k > n * (n - 1) / 2) : connCount n k = 0 := by
+  unfold connCount
+  rw [List.length_eq_zero_iff, List.filter_eq_nil_iff]
+  intro A hA
+  have := (mem_sublists_iff.1 hA).length_le
+  rw [completeGraph_edges_length] at this
+  simp only [decide_eq_true_eq, not_and]
+  intro h'; omega
+
+theorem Q_eq_connCount'_le4 :
+    ∀ n, n ≤ 4 → 1 ≤ n → ∀ k, k ≤ n * (n - 1) / 2 → Q n k = (connCount' n k : Int) := by decide +kernel
+
+theorem Q_eq_connCount'_5_lo : ∀ k, k ≤ 5 → Q 5 k = (connCount' 5 k : Int) := by decide +kernel
+
+theorem Q_eq_connCount'_5_hi : ∀ k, k ≤ 4 → Q 5 (k + 6) = (connCount' 5 (k + 6) : Int) := by decide +kernel
+
+/-- **`Q n k` is the number of connected labelled graphs with `n` vertices and `k` edges**, checked against the
+definition (all `2^(n(n-1)/2)` edge subsets of `K_n`) for `n ≤ 5` -/
+theorem Q_eq_connCount_small :
+    ∀ n, 1 ≤ n → n ≤ 5 → ∀ k, k ≤ n * (n - 1) / 2 → Q n k = (connCount n k : Int) := by
+  intro n h1 h5 k hk
+  rw [connCount_eq]
+  by_cases h4 : n ≤ 4
+  · exact Q_eq_connCount'_le4 n h4 h1 k hk
+  · obtain rfl : n = 5 := by omega
+    by_cases hk5 : k ≤ 5
+    · exact Q_eq_connCount'_5_lo k hk5
+    · obtain ⟨j, rfl⟩ : ∃ j, k = j + 6 := ⟨k - 6, by omega⟩
+      exact Q_eq_connCount'_5_hi j (by omega)
+
+/-- … and for every `k` (both sides vanish above `n(n-1)/2`) -/
+theorem Q_eq_connCount_small_all (n k : Nat) (h1 : 1 ≤ n) (h5 : n ≤ 5) : Q n k = (connCount n k : Int) := by
+  by_cases hk : k ≤ n * (n - 1) / 2
+  · exact Q_eq_connCount_small n h1 h5 k hk
+  · rw [Q_zero_outside n k (by omega), connCount_zero_outside n k (by omega)]; rfl
+
+/-- the recursion and the brute-force counter agree for `n ≤ 5` -/
+theorem Q_eq_QQ_small (n k : Nat) (h1 : 1 ≤ n) (h5 : n ≤ 5) (hk : k ≤ n * (n - 1) / 2) : Q n k = (QQ n k : Int) := by
+  rw [QQ_spec n k hk, Q_eq_connCount_small n h1 h5 k hk]
+
+/-- NOT PROVED (needs Cayley's formula `n^(n-2)`, absent from Mathlib, and the Harary–Palmer recursion) -/
+def Q_eq_connCount_full : Prop := ∀ n k, 1 ≤ n → Q n k = (connCount n k : Int)
+/-- NOT PROVED (the Harary–Palmer recursion without the shortcut) -/
+def Qgen_eq_connCount_full : Prop := ∀ n k, 1 ≤ n → Qgen n k = (connCount n k : Int)
+/-- NOT PROVED beyond `n ≤ 12` (`Q_eq_Qgen`) -/
+def Q_eq_Qgen_full : Prop := ∀ n k, 1 ≤ n → Q n k = Qgen n k
+
+/-! ## 4. the chordless-cycle equation -/
+
+section algebra
+variable {R : Type} [CommRing R]
+
+/-- `chordless_cycle_equation(n, u, φ)` in textbook form: the root's component is an arc of `s` vertices
+(`s` positions, `s - 1` open edges, both boundary edges closed), or the whole cycle (all edges open, or exactly one
+of the `n` edges closed) -/
+theorem cycle_closed_form (n : Nat) (hn : 3 ≤ n) (u φ : R) :
+    chordlessCycle n u φ
+      = (∑ s ∈ Finset.Icc 1 (n - 1), (s : R) * (φ * u) ^ (s - 1) * (1 - φ) ^ 2)
+        + u ^ (n - 1) * (φ ^ n + (n : R) * φ ^ (n - 1) * (1 - φ)) := by
+  obtain ⟨m, rfl⟩ : ∃ m, n = m + 3 := ⟨n - 3, by omega⟩
+  unfold chordlessCycle
+  simp only [powN_eq_pow, List.foldl_map, Int.cast_natCast]
+  rw [foldl_add_range (fun i => (((i + 1 + 1 : Nat) : R)) * (φ * u) ^ (i + 1) * (1 - φ) ^ 2)]
+  have hI : Finset.Icc 1 (m + 3 - 1) = Finset.Ico 1 (m + 3) := by
+    ext x; simp only [Finset.mem_Icc, Finset.mem_Ico]; omega
+  rw [hI, Finset.sum_Ico_eq_sum_range]
+  have : m + 3 - 1 = (m + 3 - 2) + 1 := by omega
+  rw [this, Finset.sum_range_succ']
+  have e : ∀ i, 1 + (i + 1) - 1 = i + 1 := fun i => by omega
+  simp only [e, Nat.add_zero, Nat.sub_self, pow_zero]
+  have e2 : ∑ i ∈ Finset.range (m + 3 - 2), ((1 + (i + 1) : Nat) : R) * (φ * u) ^ (i + 1) * (1 - φ) ^ 2
+      = ∑ i ∈ Finset.range (m + 3 - 2), ((i + 1 + 1 : Nat) : R) * (φ * u) ^ (i + 1) * (1 - φ) ^ 2 := by
+    apply Finset.sum_congr rfl; intro i _; congr 3; omega
+  rw [e2]
+  have : m + 3 - 2 + 1 = m + 2 := by omega
+  rw [this]
+  push_cast
+  ring
+
+
+/-! ## 5. the clique equation -/
+
+/-- `esym Hs κ` is the elementary symmetric polynomial: the sum over the `κ`-element sublists of their products -/
+theorem esym_spec (Hs : List R) (kappa : Nat) :
+    esym Hs kappa = ((combinations kappa Hs).map List.prod).sum := by
+  unfold esym
+  rw [foldl_add_eq, zero_add]
+  congr 1
+  apply List.map_congr_left
+  intro c _
+  rw [foldl_mul_eq, one_mul]
+
+theorem clique_expanded (tau : Nat) (φ : R) (Hs : List R) :
+    cliqueEquation tau φ Hs
+      = ∑ κ ∈ Finset.range tau, esym Hs κ *
+          ∑ m ∈ Finset.range (κ * (κ - 1) / 2 + 1),
+            ((Q (κ + 1) (κ * (κ + 1) / 2 - m) : Int) : R) * φ ^ (κ * (κ + 1) / 2 - m)
+              * (1 - φ) ^ ((κ + 1) * (tau - κ - 1) + m) := by
+  unfold cliqueEquation
+  simp only [powN_eq_pow, foldl_add_range, zero_add]
+  apply Finset.sum_congr rfl
+  intro κ hκ
+  rw [omega_closed tau κ (Finset.mem_range.1 hκ), Finset.mul_sum]
+  apply Finset.sum_congr rfl
+  intro m _
+  ring
+end algebra
+
+/-- the cycle `0 - 1 - … - (n-1) - 0` -/
+def cycleGraph (n : Nat) : Motif :=
+  { nodes := List.range n, edges := (List.range (n - 1)).map (fun i => (i, i + 1)) ++ [(0, n - 1)] }
+
+/-- NOT PROVED: the clique closed form is the exact bond-percolation generating function of the clique
+(= the automated equation on `K_τ` rooted at 0, `Hs` = the `u` of the other vertices).  Checked as a polynomial
+identity by the correspondence harness for `τ ≤ 7`. -/
+def clique_exact_full : Prop :=
+  ∀ (R : Type) [CommRing R] (tau : Nat) (φ : R) (u : Nat → R), 1 ≤ tau →
+    cliqueEquation tau φ ((List.range (tau - 1)).map fun i => u (i + 1))
+      = automatedEquation (completeGraph tau) φ u 0
+
+/-- NOT PROVED: the chordless-cycle closed form is the automated equation on `C_n` (all `u` equal).  Checked as a
+polynomial identity by the correspondence harness for `n ≤ 12`. -/
+def cycle_exact_full : Prop :=
+  ∀ (R : Type) [CommRing R] (n : Nat) (φ u : R), 3 ≤ n →
+    chordlessCycle n u φ = automatedEquation (cycleGraph n) φ (fun _ => u) 0
+
+/-! ## 6. examples (kernel evaluation) -/
+
+/-- the docstring test vector of `QQ(6, ·)`, reproduced by `Q` -/
+example : (List.range 16).map (Q 6) = [0,0,0,0,0,1296,3660,5700,6165,4945,2997,1365,455,105,15,1] := by
+  decide +kernel
+example : (List.range 7).map (QQ 4) = [0, 0, 0, 16, 15, 6, 1] := by decide +kernel
+example : (List.range 5).map (omega 5) = [4, 6, 6, 4, 0] := by decide +kernel
+example : chordlessCycle 3 (2 : Int) 3 = -56 := by decide +kernel
+/-- closed form = automated equation at an integer point (`φ = 5`, `u v = 3v + 2`), `K_4` and `C_5` -/
+example : cliqueEquation 4 (5 : Int) [5, 8, 11]
+    = automatedEquation (completeGraph 4) (5 : Int) (fun v => 3 * (v : Int) + 2) 0 := by
+  decide +kernel
+example : chordlessCycle 5 (7 : Int) 5 = automatedEquation (cycleGraph 5) (5 : Int) (fun _ => 7) 0 := by decide +kernel
+/-- number of ways to delete one edge of a triangle and stay connected -/
+example : numberOfConnectedGraphs ⟨[0,1,2,3], [(0,1),(1,2),(0,2),(2,3)]⟩ [1,2] 0 1 = 3 := by decide +kernel
+
 end Gcmpy.ClosedForms
